@@ -184,15 +184,37 @@ func exec(planJSON []byte, run *core.Run) {
 	var pverifier partiallyblindrsa.Verifier
 	var psigner partiallyblindrsa.Signer
 	var err error
+	// history: the caller keeps "the current public key" in one variable; it held another key
+	// (used for a verification) before the key of this run was assigned to it in place
+	pubSlot := &key.PublicKey
+	if p.Seed%3 == 1 {
+		other := fixtures.RSAKey("std-1024-b")
+		if pb {
+			other = fixtures.RSAKey("safe-1024-b")
+		}
+		if other.N.Cmp(key.N) != 0 {
+			slot := other.PublicKey
+			pubSlot = &slot
+			core.Try(func() {
+				if pb {
+					_ = partiallyblindrsa.NewVerifier(pubSlot, crypto.SHA384).Verify([]byte("earlier"), []byte("md"), make([]byte, (other.N.BitLen()+7)/8))
+				} else if c0, e0 := blindrsa.NewClient(blindrsa.Variant(p.Variant), pubSlot); e0 == nil {
+					_ = c0.Verify([]byte("earlier"), make([]byte, (other.N.BitLen()+7)/8))
+				}
+			})
+			*pubSlot = key.PublicKey // key rotation through the same variable
+			run.Fault("history:public-key-variable-reassigned-in-place")
+		}
+	}
 	if pb {
-		pverifier = partiallyblindrsa.NewVerifier(&key.PublicKey, crypto.SHA384)
+		pverifier = partiallyblindrsa.NewVerifier(pubSlot, crypto.SHA384)
 		psigner, err = partiallyblindrsa.NewSigner(key, crypto.SHA384)
 		if err != nil {
 			run.Violate(comp+".NewSigner", "rejects-safe-prime-key", "%v", err)
 			return
 		}
 	} else {
-		client, err = blindrsa.NewClient(blindrsa.Variant(p.Variant), &key.PublicKey)
+		client, err = blindrsa.NewClient(blindrsa.Variant(p.Variant), pubSlot)
 		if err != nil {
 			run.Violate(comp+".NewClient", "error", "%v", err)
 			return
